@@ -138,6 +138,19 @@ def g2(a, b):
         yield "g2"
 
 
+@contextmanager
+def g_never():
+    # registered on a stack without being entered: its generator is created but not started; popping it just finishes it
+    if False:
+        yield "never"
+
+
+@asynccontextmanager
+async def ag_never():
+    if False:
+        yield "never"
+
+
 def _inner1(a):
     with a:
         yield "gy1"
@@ -254,6 +267,16 @@ async def populate(node, rt, nested_len):
                 ch.mgr.__enter__()
             st.push(ch.mgr)
             node.regs.append(Reg("push", [ch.mgr], False, node=ch, done=done_of(ch), equiv=["enter_context", "push"]))
+        elif kind == "pushraw":
+            m = g_never()
+            ch = Node("G", m, [])
+            st.push(m)
+            node.regs.append(Reg("push", [m], False, node=ch, done=done_of(ch), equiv=["enter_context", "push"]))
+        elif kind == "apushraw":
+            m = ag_never()
+            ch = Node("AG", m, [], is_async=True)
+            st.push_async_exit(m)
+            node.regs.append(Reg("push_async_exit", [m], True, node=ch, done=done_of(ch), equiv=["enter_async_context", "push_async_exit"]))
         elif kind == "pushfn":
             f = Fn(rt)
             st.push(f.fn)
@@ -416,12 +439,12 @@ def async_nodes(depth):
 
 
 def reg_kinds(is_async, depth, nested_len):
-    out = [("enter", n) for n in sync_nodes(depth)] + [("pushcm", ("P",)), ("pushcm", ("G", (("P",),))), ("pushfn",), ("pushmeth",), ("callback",)]
+    out = [("enter", n) for n in sync_nodes(depth)] + [("pushcm", ("P",)), ("pushcm", ("G", (("P",),))), ("pushraw",), ("pushfn",), ("pushmeth",), ("callback",)]
     if nested_len >= 1:
         for seq in itertools.product([("enter", ("P",)), ("callback",), ("pushfn",)], repeat=nested_len):
             out.append(("enter", ("ES", tuple(seq))))
     if is_async:
-        out += [("aenter", n) for n in async_nodes(depth)] + [("apushcm", ("AP",)), ("apushcm", ("AG", (("AP",),))), ("apushfn",), ("apushmeth",), ("acallback",)]
+        out += [("aenter", n) for n in async_nodes(depth)] + [("apushcm", ("AP",)), ("apushcm", ("AG", (("AP",),))), ("apushraw",), ("apushfn",), ("apushmeth",), ("acallback",)]
     return out
 
 
